@@ -192,6 +192,9 @@ func (x *Exec) mergeStates(as []arrival, j *ssa.BasicBlock, base, baseDecls int)
 		for k2, v := range a.s.lits {
 			m.lits[k2] = v
 		}
+		for k2, v := range a.s.navOwner {
+			m.navOwner[k2] = v
+		}
 		for k2, v := range a.s.escaped {
 			if v {
 				m.escaped[k2] = true
